@@ -139,8 +139,12 @@ EncPayload(c, p, enc) ==
       [] sz = "blockleb" -> EncU(IF "claim" \in DOMAIN p THEN p.claim ELSE FromNat(Len(p.data), 8)) \o p.data
       [] sz = "indirect" -> Uleb16(p.form) \o EncPayload(p.form, p.p, enc)
 EncAttr(a, enc) == EncPayload(a.form, a.p, enc)
-RECURSIVE EncAttrs(_, _)
-EncAttrs(as, enc) == IF as = <<>> THEN <<>> ELSE EncAttr(Head(as), enc) \o EncAttrs(Tail(as), enc)
+(* concatenation by halves: O(n log n) copying also for lists of thousands of attributes *)
+RECURSIVE EncAttrRange(_, _, _, _)
+EncAttrRange(as, lo, hi, enc) ==
+    IF lo > hi THEN <<>> ELSE IF lo = hi THEN EncAttr(as[lo], enc)
+    ELSE LET mid == (lo + hi) \div 2 IN EncAttrRange(as, lo, mid, enc) \o EncAttrRange(as, mid + 1, hi, enc)
+EncAttrs(as, enc) == EncAttrRange(as, 1, Len(as), enc)
 (* the abbreviation's view of an attribute *)
 SpecOf(a) == IF FormOf(a.form).nm = "implicit_const"
              THEN [name |-> a.name, form |-> a.form, ic |-> EncS(a.p.val)]
@@ -324,11 +328,19 @@ SkipOne(bytes, s, c, enc) ==
                 [] sz \in {"uleb", "sleb"} ->
                      LET r == SkipLebAt(bytes, s1.pos) IN
                      IF ~r.ok THEN [s1 EXCEPT !.st = "err"] ELSE [s1 EXCEPT !.pos = s1.pos + r.n]
-RECURSIVE SkipAll(_, _, _, _, _)
-SkipAll(bytes, s, forms, i, enc) ==
-    IF i > Len(forms) THEN (IF s.st = "run" THEN [Flush(bytes, s) EXCEPT !.st = IF @ = "run" THEN "ok" ELSE @] ELSE s)
-    ELSE SkipAll(bytes, SkipOne(bytes, s, forms[i], enc), forms, i + 1, enc)
+(* the loop over the specs: the state is threaded left to right through forms[lo..hi]; the range is   *)
+(* split by halves only to keep TLC's evaluation depth logarithmic (a linear recursion over thousands *)
+(* of attributes costs quadratic time in TLC's context chain)                                          *)
+RECURSIVE SkipRange(_, _, _, _, _, _)
+SkipRange(bytes, s, forms, lo, hi, enc) ==
+    IF lo > hi THEN s
+    ELSE IF lo = hi THEN SkipOne(bytes, s, forms[lo], enc)
+    ELSE LET mid == (lo + hi) \div 2 IN
+         SkipRange(bytes, SkipRange(bytes, s, forms, lo, mid, enc), forms, mid + 1, hi, enc)
+SkipAll(bytes, s0, forms, enc) ==
+    LET s == SkipRange(bytes, s0, forms, 1, Len(forms), enc) IN
+    IF s.st = "run" THEN [Flush(bytes, s) EXCEPT !.st = IF @ = "run" THEN "ok" ELSE @] ELSE s
 (* skip_attributes(specs) on `bytes` starting at index pos0: [st, pos, ovf] *)
 SkipCoded(bytes, pos0, forms, enc) ==
-    SkipAll(bytes, [pos |-> pos0, acc |-> Zero(8), st |-> "run", ovf |-> FALSE], forms, 1, enc)
+    SkipAll(bytes, [pos |-> pos0, acc |-> Zero(8), st |-> "run", ovf |-> FALSE], forms, enc)
 =============================================================================
